@@ -131,7 +131,11 @@ def shrink(exe, case, fails):
                             c = copy.deepcopy(cur)
                             c[key][lst][idx][fld] = val
                             changed |= attempt(c)
-        for fld, val in (("cfg", {}), ("style", 0), ("upstream", 200)):
+        if cur.get("cfg", {}).get("verbose") and len(cur["cfg"]) > 1:
+            c = copy.deepcopy(cur)
+            c["cfg"] = {"verbose": True}
+            changed |= attempt(c)
+        for fld, val in (("cfg", {}), ("style", 0), ("upstream", 200), ("accept", None)):
             if cur.get(fld) != val:
                 c = copy.deepcopy(cur)
                 c[fld] = val
@@ -192,6 +196,8 @@ def run(R):
     rejected = 0
     steps_hist = {}
     positives = {ep: 0 for ep in EPS}
+    verbosity = {"verbose": 0, "verbose_and_negotiation_fails": 0, "verbose_negotiation_fails_and_error_answer": 0}
+    accepts = {}
     for c, i, m in zip(cases, impl, model):
         if gen_pipeline.nontrivial(c):
             nontriv.add(vlib.case_hash(c))
@@ -203,12 +209,21 @@ def run(R):
                 positives[ep] += 1
         if st.get("decision") == "rejected":
             rejected += 1
+        acc = c.get("accept")
+        accepts[str(acc)] = accepts.get(str(acc), 0) + 1
+        if c.get("cfg", {}).get("verbose"):
+            verbosity["verbose"] += 1
+            if acc in gen_pipeline.ACCEPTS[-4:]:
+                verbosity["verbose_and_negotiation_fails"] += 1
+                if st.get("decision") in ("error-handled", "error-returned", "no-rule", "panic"):
+                    verbosity["verbose_negotiation_fails_and_error_answer"] += 1
         d = c.get("rule") or c.get("default") or {}
         k = len(d.get("auth", [])) + len(d.get("hand", [])) + len(d.get("fin", []))
         steps_hist[str(k)] = steps_hist.get(str(k), 0) + 1
     R.coverage.update({
         "evaluations": len(cases), "distinct_nontrivial": len(nontriv),
-        "rule": "a case = status overrides of the services, a rule and/or default rule (0-3 authenticators, 0-4 "
+        "rule": "a case = status overrides and respond.verbose of the services, the request's Accept header (absent, "
+                "acceptable, unsupported, malformed), a rule and/or default rule (0-3 authenticators, 0-4 "
                 "authorizers/contextualizers, 0-3 finalizers, 0-3 error handlers; per step an outcome ok/error "
                 "kinds/panic, an `if` condition true/false/on subject/on error type/not evaluable, fallback and "
                 "continue-on-error flags), whether the request matches the rule, the upstream's status; each case is "
@@ -220,6 +235,7 @@ def run(R):
         "exhaustive": False,
         "model_branches_per_entry_point": dict(sorted(branches.items())),
         "positive_answers_observed": positives,
+        "verbosity_distribution": verbosity, "accept_header_distribution": dict(sorted(accepts.items())),
         "cases_rejected_at_load": rejected,
         "pipeline_length_histogram": dict(sorted(steps_hist.items(), key=lambda kv: int(kv[0]))),
         "samples": [cases[len(corpus)]] if len(cases) > len(corpus) else cases[:1],
@@ -236,10 +252,13 @@ def run(R):
         "the upstream answers (no communication failure while proxying); WriteHeader with codes outside 100..999 "
         "is not modelled; a Go error is modelled by the sentinels errors.Is can see in it",
         "CEL evaluation, text/template, net/http, httputil.ReverseProxy, grpc-go are exercised, not modelled",
+        "content negotiation of the Accept header is a request attribute of the model (`negotiable`), tabulated for "
+        "the 11 generated header values and validated through the observed presence of an error body; body content "
+        "and content type are out of scope (C12)",
     ]
 
     # ---- verdict
-    for c, i, m, eps in bad_spec[:3]:
+    for c, i, m, eps in bad_spec[:2]:
         ep = eps[0]
         sc = shrink(exe, c, lambda x, ep=ep: ep in spec_violations(*one(exe, x)))
         si, sm = one(exe, sc)
@@ -247,7 +266,7 @@ def run(R):
                     {"case": sc, "impl": si, "model": vlib.res_of(sm), "spec": sm.get("spec") if isinstance(sm, dict)
                      else None, "kind": "impl-vs-spec", "entry_point": ep}, no_input=False)
     if not bad_spec:
-        for c, i, m in bad_model[:3]:
+        for c, i, m in bad_model[:2]:
             sc = shrink(exe, c, lambda x: differs(*one(exe, x)))
             si, sm = one(exe, sc)
             R.violation("the implementation no longer behaves like the model the C01 theorems are about (no input "
